@@ -18,7 +18,7 @@ use crate::simkit::tape::{fnv, Src};
 use redis_sim::production::ReplicatedShardedState;
 use redis_sim::replication::state::{ReplicatedValue, ReplicationDelta};
 use redis_sim::replication::{ConsistencyLevel, ReplicationConfig};
-use redis_sim::streaming::{CheckpointConfig, CheckpointInfo, CheckpointManager, ManifestManager, ObjectStore, RecoveryManager, StreamingPersistence, WalEntry, WalRotator, WriteBufferConfig};
+use redis_sim::streaming::{StreamingConfig, StreamingIntegration, CheckpointConfig, CheckpointInfo, CheckpointManager, ManifestManager, ObjectStore, RecoveryManager, StreamingPersistence, WalEntry, WalRotator, WriteBufferConfig};
 use serde_json::json;
 use std::collections::{BTreeMap, HashMap};
 use std::sync::Arc;
@@ -49,7 +49,7 @@ impl Property for C11 {
     fn components_real(&self) -> Vec<&'static str> { vec!["streaming::persistence::StreamingPersistence::{push,flush}", "streaming::checkpoint::CheckpointManager::create_checkpoint + Manifest::compact_segments", "streaming::wal::WalRotator::{append,sync,recover_all_entries,recover_entries_after}", "streaming::recovery::RecoveryManager::{recover,recover_with_wal}", "production::ReplicatedShardedState::{apply_recovered_state,snapshot_state} with 16 real ReplicatedShardActors", "ReplicatedValue::merge"] }
     fn components_stubbed(&self) -> Vec<&'static str> { vec!["ObjectStore -> SimStore, WalStore -> SimWalStore (no faults in this check)", "server_persistent main(): its recovery wiring (integration.recover, WAL replay of all entries, apply_recovered_state) is restated in the harness"] }
     fn assumptions(&self) -> Vec<&'static str> { vec!["ground truth is the fold of all persisted updates with the implementation's own merge (C07 decides the merge laws); keys keep one data type per run so the open C07 type-mismatch finding is not re-reported here"] }
-    fn required_probes(&self) -> Vec<&'static str> { vec!["wal_entry_below_segment_max", "interleaved_segment_ranges", "checkpoint_installed", "node_recovery_checked"] }
+    fn required_probes(&self) -> Vec<&'static str> { vec!["wal_entry_below_segment_max", "interleaved_segment_ranges", "checkpoint_installed", "node_recovery_checked", "recovered_through_streaming_integration"] }
     fn runs(&self, tier: Tier) -> u64 { match tier { Tier::Quick => 80000, Tier::Thorough => 3000000 } }
 
     fn run(&self, src: &mut Src, ctx: &RunCtx) -> RunReport {
@@ -154,17 +154,30 @@ impl Property for C11 {
             // (d) into a real node, twice (idempotence)
             if do_node {
                 o.probes.push("node_recovery_checked");
-                let node = ReplicatedShardedState::with_time_source(repl_config(1), clock.clone());
+                // as server_persistent does: the object-store recovery through StreamingIntegration::recover
+                // (its own recover_with_progress path), then the replay of the local WAL as a second, separate
+                // application. Every other run uses apply_recovered_state on recover()'s result directly.
+                let via_integration = shuffle[0] % 2 == 0;
+                clock.publish();
+                let node_p = ReplicatedShardedState::new(repl_config(1));
+                let node_t = ReplicatedShardedState::with_time_source(repl_config(1), clock.clone());
+                let integ = StreamingIntegration::with_store(Arc::new(store.clone()), StreamingConfig { prefix: PREFIX.to_string(), ..StreamingConfig::default() }, 1);
                 for round in 0..2 {
-                    // as server_persistent does: the object-store recovery first (integration.rs), then the
-                    // replay of the local WAL as a second, separate application
-                    node.apply_recovered_state(cp_state.clone(), seg_deltas.clone());
-                    node.apply_recovered_state(None, wal_deltas.clone());
-                    let snap: BTreeMap<String, ReplicatedValue> = node.snapshot_state().await.into_iter().collect();
+                    if via_integration {
+                        o.probes.push("recovered_through_streaming_integration");
+                        if let Err(e) = integ.recover(&node_p).await { o.v.push(("C11/integration-recover/error".into(), e.to_string())); redis_sim::production::verif_hooks::clock::clear(); return o; }
+                        node_p.apply_recovered_state(None, wal_deltas.clone());
+                    } else {
+                        node_t.apply_recovered_state(cp_state.clone(), seg_deltas.clone());
+                        node_t.apply_recovered_state(None, wal_deltas.clone());
+                    }
+                    let snap: BTreeMap<String, ReplicatedValue> = if via_integration { node_p.snapshot_state().await.into_iter().collect() } else { node_t.snapshot_state().await.into_iter().collect() };
+
                     o.evals += 1;
                     if let Some((k, e, g)) = diff(&exp_all, &snap) { o.v.push((if round == 0 { "C11/node/state-differs".into() } else { "C11/node/repeat-recovery-differs".into() }, format!("node after apply_recovered_state (round {}): key {} expected {} got {}", round + 1, k, e, g))); return o; }
                 }
             }
+            redis_sim::production::verif_hooks::clock::clear();
             // ---- metamorphic variants of the durable image
             let mm = ManifestManager::new(store.clone(), PREFIX);
             if let Ok(manifest) = mm.load().await {
